@@ -196,6 +196,7 @@ def check_case(case, sess: Session):
         sess.evaluations += 1
         sess.count("gate_twins")
         sess.count("gate:" + gate)
+        sess.sample({"gate": gate, "assignment_in_gated_subtree": off_sub, "turns": case["turns"][:2], "episodes": len(case["world"]["eps"]), "graphs": len(case["world"]["graphs"])})
         ba, fa, na, ta = ra
         bb, fb, nb, tb = rb
         tcase = {"gate": gate, "world": case["world"], "base": case["base"], "turns": case["turns"], "seed": case["seed"], "assignment": off_sub}
